@@ -98,9 +98,11 @@ def fieldSpans (types : List Elem) : Nat → List FieldDef → Except String (Na
                       else match lookup types f.type with
                         | some enc => elemLeaves types FUEL [f.name] off enc
                         | none => .error s!"field type `{f.type}` doesn't exist")
-      let (total, sp) ← fieldSpans types (off + sz) rest
-      .ok (total, { name := f.name, off := off, size := sz, custom := f.offset, isView := fieldIsView types f,
-                    leaves := lv } :: sp)
+      if offsetMax < off + sz then .error (overflowMsg off sz)
+      else do
+        let (total, sp) ← fieldSpans types (off + sz) rest
+        .ok (total, { name := f.name, off := off, size := sz, custom := f.offset, isView := fieldIsView types f,
+                      leaves := lv } :: sp)
 
 /-! ### the generator's fold -/
 
